@@ -44,6 +44,23 @@ def train(ctx, project: str, release: str, states: list, lose=None):
     return int(accessor._generation.key)  # pylint: disable=protected-access
 
 
+def train_begin(ctx, slot: int, project: str, release: str, states: list):
+    """First half of a training: compose against the current latest generation (reads its tag) and stage the states.
+    The handle stays open in this process until train_commit - other trainers may commit in between."""
+    instance = asset.Instance(project, release, None, _directory(ctx))
+    nodes = [uuid.uuid4() for _ in states]
+    accessor = instance.state(nodes, instance.tag.training.trigger())
+    sids = [accessor.dump(bytes.fromhex(s)) for s in states]
+    ctx.setdefault('open', {})[slot] = (accessor, sids)
+    return len(sids)
+
+
+def train_commit(ctx, slot: int):
+    accessor, sids = ctx['open'].pop(slot)
+    accessor.commit(sids)
+    return int(accessor._generation.key)  # pylint: disable=protected-access
+
+
 def _err(err: BaseException) -> str:
     return f'ERR:{type(err).__name__}:{str(err)[:120]}'
 
@@ -111,4 +128,4 @@ def mount(ctx, project: str, release: str):
     return os.path.exists(artifact.path)
 
 
-OPS = {'publish': publish, 'train': train, 'observe': observe, 'read_explicit': read_explicit, 'mount': mount}
+OPS = {'publish': publish, 'train': train, 'train_begin': train_begin, 'train_commit': train_commit, 'observe': observe, 'read_explicit': read_explicit, 'mount': mount}
